@@ -201,7 +201,7 @@ func (a *Act) instr(st *State, ins ssa.Instruction) {
 				st.dom0 = map[ssa.Value]Term{}
 			}
 			c := a.u.D.Fresh("dom0", "(Array "+ks+" Bool)")
-			a.u.Fact(eq(c, ite(eq(m, "nil"), fmt.Sprintf("((as const (Array %s Bool)) false)", ks), sel(st.heap(dn, ds), m))))
+			a.u.Fact(eq(c, ite(eq(m, "nil"), fmt.Sprintf("((as const (Array %s Bool)) false)", ks), hsel(st.u, st.heap(dn, ds), m))))
 			st.dom0[x] = c
 			a.vals[x] = Val{T: m, Typ: x.X.Type()}
 		case *types.Basic:
@@ -470,12 +470,12 @@ func (a *Act) mapHeapSorts(mt *types.Map) (dn, vn, ds, vs string) {
 
 func (a *Act) mapDom(st *State, mt *types.Map, m Term) Term {
 	dn, _, ds, _ := a.mapHeapSorts(mt)
-	return sel(st.heap(dn, ds), m)
+	return hsel(st.u, st.heap(dn, ds), m)
 }
 
 func (a *Act) mapVal(st *State, mt *types.Map, m Term) Term {
 	_, vn, _, vs := a.mapHeapSorts(mt)
-	return sel(st.heap(vn, vs), m)
+	return hsel(st.u, st.heap(vn, vs), m)
 }
 
 func (a *Act) mapStore(st *State, mt *types.Map, m, k, v Term, present bool) {
@@ -484,9 +484,9 @@ func (a *Act) mapStore(st *State, mt *types.Map, m, k, v Term, present bool) {
 	if !present {
 		p = "false"
 	}
-	st.setHeap(dn, ds, store(st.heap(dn, ds), m, store(sel(st.heap(dn, ds), m), k, p)))
+	st.setHeap(dn, ds, store(st.heap(dn, ds), m, store(hsel(st.u, st.heap(dn, ds), m), k, p)))
 	if present {
-		st.setHeap(vn, vs, store(st.heap(vn, vs), m, store(sel(st.heap(vn, vs), m), k, v)))
+		st.setHeap(vn, vs, store(st.heap(vn, vs), m, store(hsel(st.u, st.heap(vn, vs), m), k, v)))
 	}
 }
 
